@@ -19,9 +19,9 @@ theorem liftW_fst {α : Type} (a : α) (x : Store × WR) : (liftW a x).1 = x.1 :
   obtain ⟨s, r⟩ := x
   cases r <;> rfl
 
-theorem validateOne_store (rejects : Obj → Bool) (fault : Fault) (p : Parent) (control : Bool)
-    (s : Store) (i : Nat) (d : Desired) : (validateOne rejects fault p control s i d).1 = s := by
-  unfold validateOne
+theorem validateGo_store (rejects : Obj → Bool) (fault : Fault) (p : Parent) (control : Bool)
+    (s : Store) (i : Nat) (d : Desired) : (validateGo rejects fault p control s i d).1 = s := by
+  unfold validateGo
   split <;> try rfl
   split
   · split
@@ -30,6 +30,13 @@ theorem validateOne_store (rejects : Obj → Bool) (fault : Fault) (p : Parent) 
   · split
     · rfl
     · simp only [liftW_fst, apiUpdate_dry]
+
+theorem validateOne_store (rejects : Obj → Bool) (fault : Fault) (p : Parent) (control : Bool)
+    (s : Store) (i : Nat) (d : Desired) : (validateOne rejects fault p control s i d).1 = s := by
+  unfold validateOne
+  split
+  · rfl
+  · exact validateGo_store rejects fault p control s i d
 
 theorem validateAll_store (rejects : Obj → Bool) (fault : Fault) (p : Parent) (control : Bool)
     (s : Store) (xs : List (Nat × Desired)) : (validateAll rejects fault p control s xs).1 = s := by
@@ -180,12 +187,12 @@ theorem updateSub_foreign_invalid (p : Parent) (cur des sub : Obj) (r : ORef) (h
       (mem_addOwner_of_ne _ _ r hr1 hne) (mem_addOwner_self _ _) hne' hc rfl
 
 /-- The goroutine of a blocked object fails, under every fault. -/
-theorem validateOne_blocked (rejects : Obj → Bool) (fault : Fault) (p : Parent) (control : Bool)
+theorem validateGo_blocked (rejects : Obj → Bool) (fault : Fault) (p : Parent) (control : Bool)
     (s : Store) (i : Nat) (d : Desired)
     (hb : (control = true ∧ ForeignControlled p s d) ∨
           (∃ o, submission p control s d = some o ∧ rejects o = true)) :
-    (validateOne rejects fault p control s i d).2.failed := by
-  unfold validateOne
+    (validateGo rejects fault p control s i d).2.failed := by
+  unfold validateGo
   split <;> try trivial
   split
   · rename_i hget
@@ -216,6 +223,24 @@ theorem validateOne_blocked (rejects : Obj → Bool) (fault : Fault) (p : Parent
         simp only [hsub, Option.some.injEq] at ho
         subst ho
         exact apiUpdate_rejected _ _ _ _ _ hrej
+
+/-- The goroutine of a blocked object fails, under every fault. -/
+theorem validateOne_blocked (rejects : Obj → Bool) (fault : Fault) (p : Parent) (control : Bool)
+    (s : Store) (i : Nat) (d : Desired)
+    (hb : (control = true ∧ ForeignControlled p s d) ∨
+          (∃ o, submission p control s d = some o ∧ rejects o = true)) :
+    (validateOne rejects fault p control s i d).2.failed := by
+  unfold validateOne
+  split
+  · trivial
+  · exact validateGo_blocked rejects fault p control s i d hb
+
+/-- a CRD that needs the CA bundle cannot be deployed by a controlling parent without one -/
+theorem validateOne_needsCA (rejects : Obj → Bool) (fault : Fault) (p : Parent)
+    (s : Store) (i : Nat) (d : Desired) (hn : d.needsCA = true) (ht : p.tls ≠ .present) :
+    (validateOne rejects fault p true s i d).2.failed := by
+  unfold validateOne
+  simp [hn, ht, R.failed]
 
 theorem mem_pick {α : Type} (xs : List α) (order : List Nat) (j : Nat) (x : α)
     (hx : xs[j]? = some x) (hj : j ∈ order) : (j, x) ∈ pick xs order := by
